@@ -45,6 +45,19 @@ OLD = 20 * 7 * 86400
 BRANCHES = [b"refs/heads/b0", b"refs/heads/b1", b"refs/heads/b2"]
 TAGS = [b"refs/tags/t0", b"refs/tags/t1", b"refs/tags/t2"]
 
+CONFIGS = [
+    [(b"core", b"looseCompression", b"0"), (b"pack", b"compression", b"9")],
+    [(b"core", b"compression", b"0")],
+    [(b"pack", b"indexVersion", b"1")],
+    [(b"pack", b"deltaWindowSize", b"0"), (b"pack", b"depth", b"1")],
+    [(b"core", b"fsyncObjectFiles", b"true")],
+    [(b"pack", b"writeBitmaps", b"true"), (b"repack", b"writeBitmaps", b"true"), (b"pack", b"writeBitmapHashCache", b"true")],
+    [(b"core", b"multiPackIndex", b"true"), (b"core", b"commitGraph", b"true")],
+    [(b"core", b"multiPackIndex", b"false"), (b"core", b"commitGraph", b"false")],
+    [(b"core", b"bigFileThreshold", b"1048576"), (b"pack", b"bigFileThreshold", b"64"), (b"pack", b"threads", b"2")],  # core.* is dulwich's documented size cap for reading loose objects: kept above every generated object
+    [(b"core", b"packedGitLimit", b"1"), (b"core", b"deltaBaseCacheLimit", b"1")],
+]
+
 MAINT = {"pack_loose", "repack", "repack_excl", "prune_unreach", "gc", "prune_tmp", "pack_refs", "midx", "commit_graph", "bitmaps",
          "porcelain_gc", "porcelain_repack", "git_repack", "git_gc", "reopen"}
 
@@ -71,6 +84,7 @@ def op_strategy():
         st.tuples(st.just("thin_pack"), st.integers(0, 3)),
         st.tuples(st.just("alternate"), st.integers(0, 3)),
         st.tuples(st.just("age"), st.sampled_from(["loose", "packs", "all"])),
+        st.tuples(st.just("config"), st.integers(0, len(CONFIGS) - 1)),
     )
     maint = st.one_of(
         st.tuples(st.just("pack_loose")), st.tuples(st.just("repack")), st.tuples(st.just("repack_excl")),
@@ -281,6 +295,18 @@ class Machine:
             self.store().add_alternate_path(adir)
             self.commits.append(c.id)
             r.refs[BRANCHES[2]] = c.id
+        elif k == "config":
+            # storage options that must not change what is kept or what any object contains; the handle is reopened so
+            # that they apply (the object store reads them when it is created)
+            from dulwich.repo import Repo
+
+            c = r.get_config()
+            self.ctx.label("config:" + "+".join(k.decode() for _, k, _ in CONFIGS[op[1] % len(CONFIGS)]))
+            for sec, key, val in CONFIGS[op[1] % len(CONFIGS)]:
+                c.set((sec,), key, val)
+            c.write_to_path()
+            r.close()
+            self.repo = Repo(self.path)
         elif k == "age":
             t = time.time() - OLD
             od = self.store().path
